@@ -255,6 +255,12 @@ class _ReusablePoolExecutor(ProcessPoolExecutor):
                 time.sleep(1e-3)
 
             self._adjust_process_count()
+            # Wake up the executor manager thread so that it also watches the
+            # sentinels of the newly spawned workers.
+            thread_wakeup = self._executor_manager_thread_wakeup
+            if thread_wakeup is not None:
+                with self._shutdown_lock:
+                    thread_wakeup.wakeup()
             # Wait for the workers to be started. A worker that exits meanwhile
             # (idle timeout) is removed from self._processes by the executor
             # manager thread and a worker that dies flags the executor as
